@@ -256,6 +256,11 @@ class Lin:
                     return args[0]
                 if bn in ("zeros_like", "ones_like", "empty_like", "shape", "ndim", "size", "result_type", "iscomplexobj"):
                     return "Z"
+                if bn == "pad" and dep_pos == [0] and npre == 0:
+                    if {"constant_values", "end_values"} & set(t.kw) or t.get("dstar"):
+                        self.blame(t, "numpy.pad with constant_values/end_values (or forwarded **kwargs) is affine in the padded array")
+                        return join(args[0], "A")
+                    return args[0]
                 if len(dep_pos) == 1:
                     i = dep_pos[0]
                     ok, why = linear_in(self.world, ref, i + npre)
